@@ -8,6 +8,8 @@
     (never touches the chain);
   * `server.go`  `WithMiddleware(ms…)` appends to `pendingMiddlewares`, `initComponents` calls `use` for each
     pending one in order; `sse_server.go` `WithSSEMiddleware(ms…)` calls `use` directly;
+  * the other options of `NewServer` / `NewSSEServer` as far as they can touch the handler the middlewares are
+    registered on (the field `mcpHandler`; see "the other constructor options" below);
   * the outcome mapping of `streamable_server.go handlePostRequest` (both responder branches) and
     `sse_server.go processRequestAsync / handleRequestError`: `(nil, err)` is answered with a JSON-RPC error
     carrying the internal-error code and `err.Error()`, a `*JSONRPCError` value is sent as it is, anything
@@ -168,6 +170,70 @@ def serve (f : Facts) (tr : Transport) (opts : List (List Stage)) (h : Req → O
 def serveAll (f : Facts) (tr : Transport) (h : Req → Out) (batch : List (List (List Stage) × Msg)) :
     List (List Ev × Option Resp) :=
   batch.map (fun p => serve f tr p.1 h p.2)
+
+/-! ### the other constructor options
+
+  `NewServer(opts…)` / `NewSSEServer(opts…)` take the middleware options interleaved with every other option
+  (logger, context functions, list filters, paths, …). On the Streamable server `WithMiddleware` only appends to
+  `pendingMiddlewares`; the handler is created by `initComponents` after the last option ran. On the legacy SSE server the
+  handler exists before the options run and `WithSSEMiddleware` registers on the handler *of that moment*: an option whose
+  closure assigned a fresh handler to the field `mcpHandler` would silently drop everything registered before it.
+  The model is a family indexed by the regenerated list of the functions that write that field
+  (`Mcp.Gen.mwHandlerWriters`). -/
+
+/-- One constructor option, in the order given to the constructor. -/
+inductive Opt
+  | mw (ms : List Stage)    -- `WithMiddleware(ms…)` / `WithSSEMiddleware(ms…)`
+  | other (name : Text)     -- any other option, named by the Go function that builds it (`WithSSEServerLogger`, …)
+  deriving Repr, DecidableEq
+
+/-- The middleware options of an option list, in order. -/
+def Opt.groups : List Opt → List (List Stage)
+  | [] => []
+  | .mw ms :: r => ms :: Opt.groups r
+  | .other _ :: r => Opt.groups r
+
+/-- The functions that legitimately give the field `mcpHandler` its value: the constructors, one site each
+    (`NewSSEServer`: the composite literal; `NewServer` → `Server.initComponents`: after the options). -/
+def handlerConstructors : List Text := [t!"NewSSEServer", t!"Server.initComponents"]
+
+/-- **No option / method replaces the handler**: the regenerated writers of the field (one entry per site, sorted) are
+    exactly the constructors. A closure (`WithX.func1`), a method, a second site in a constructor, a site the extractor
+    cannot classify (`…:address-taken`, …) or a missing constructor all make this `false`. -/
+def handlerNotReplaced (writers : List Text) : Bool := writers == handlerConstructors
+
+/-- Option `name` replaces the handler when the closure it returns (`name.func1`, as the Go tool chain and the extractor
+    name it) is among the writers of the field. -/
+def replacesHandler (writers : List Text) (name : Text) : Bool := writers.contains (name ++ t!".func1")
+
+/-- `NewSSEServer(opts…)`, all options: a middleware option registers on the current handler, an option that replaces the
+    handler starts again from an empty chain, any other option leaves it alone. -/
+def sseOptStep (writers : List Text) (reg : List Stage) : Opt → List Stage
+  | .mw ms => ms.foldl use reg
+  | .other n => if replacesHandler writers n then [] else reg
+
+def newSSEServerX (writers : List Text) (opts : List Opt) : List Stage := opts.foldl (sseOptStep writers) []
+
+/-- `NewServer(opts…)`, all options: the pending list is untouched by whatever an option does to the field; the handler is
+    created afterwards. -/
+def newServerX (opts : List Opt) : List Stage := newServer (Opt.groups opts)
+
+def registeredX (writers : List Text) (tr : Transport) (opts : List Opt) : List Stage :=
+  match tr with
+  | .streamable => newServerX opts
+  | .sse => newSSEServerX writers opts
+
+/-- `serve` for a server built from the full option list. -/
+def serveX (f : Facts) (writers : List Text) (tr : Transport) (opts : List Opt) (h : Req → Out) : Msg → List Ev × Option Resp
+  | .request r =>
+    let x := applyMiddlewares f (registeredX writers tr opts) (core h) r
+    (x.1, some (respond (f.code tr) x.2))
+  | .notification =>
+    if f.notifBypass then ([], none)
+    else ((applyMiddlewares f (registeredX writers tr opts) (fun _ => ([], .ok (.handler []) [])) {}).1, none)
+
+/-- The writers of today's source. -/
+def codeWriters : List Text := Mcp.Gen.mwHandlerWriters
 
 /-! ### vocabulary of the theorems -/
 
